@@ -648,8 +648,11 @@ def ensure_driver():
 class FaultyTherm:
     """forwards to the real thermodynamics object; `getGrowthAndInterfacialComposition` returns None (no equilibrium found) for the
     calls whose running number is in `drop` — the transient backend failure kawin documents"""
-    def __init__(self, real, drop):
+    def __init__(self, real, drop, planar_drop=()):
         object.__setattr__(self, '_real', real); object.__setattr__(self, '_drop', drop); object.__setattr__(self, '_count', [0])
+        # binary: the PLANAR interfacial-composition requests (scalar gExtra = 0) whose running number is in planar_drop are answered
+        # with the 'precipitate not stable' sentinel (-1, -1)
+        object.__setattr__(self, '_pdrop', set(planar_drop)); object.__setattr__(self, '_pcount', [0])
 
     def __getattr__(self, name):
         attr = getattr(object.__getattribute__(self, '_real'), name)
@@ -662,6 +665,16 @@ class FaultyTherm:
                     return None
                 return attr(*a, **k)
             return wrapped
+        if name == 'getInterfacialComposition':
+            pdrop, pcount = object.__getattribute__(self, '_pdrop'), object.__getattribute__(self, '_pcount')
+
+            def wrapped_ic(T, gExtra=0, *a, **k):
+                if np.ndim(gExtra) == 0 and float(gExtra) == 0.0:
+                    pcount[0] += 1
+                    if pcount[0] in pdrop:
+                        return -1, -1
+                return attr(T, gExtra, *a, **k)
+            return wrapped_ic
         return attr
 
     def __setattr__(self, name, value):
@@ -757,6 +770,12 @@ def scenario(name, rng, noload=False):
         drop = set(start + k for k in rng.sample(range(0, 60), rng.randint(3, 8))) | {start + 70, start + 71, start + 72}
         m.therm = FaultyTherm(m.therm, drop)
         return m, 3600 * 10
+    if name == 'alzr-planar-faults':
+        # binary, non-isothermal (the lookup table is rebuilt during the run): the planar-interface request is answered with the
+        # 'not stable' sentinel at setup() and/or at later rebuilds - the recorded equilibrium compositions must stay compositions
+        m, simt = scenario('alzr-noniso', rng)
+        m.therm = FaultyTherm(m.therm, set(), planar_drop=rng.choice([{1}, {2}, {1, 3}, {2, 3, 4}]))
+        return m, simt
     if name == 'alzr-preloaded':
         # a size distribution loaded BEFORE the first setup(): setup() resets every PBM, so row 0 describes an empty distribution
         m = kwnruns.build_binary(**small)
